@@ -76,6 +76,25 @@ def run_case(case):
             if not np.array_equal(np.asarray(val), keep, equal_nan=True):
                 return ('raise', 'ResultOverwritten: the array returned by the first call was changed by a later call of the same object')
             return ('ok', np.asarray(val).tolist(), list(np.shape(val)))
+        if mode == 'jac-hist':
+            # one object, three calls: at x0; at the SAME array after it was changed in place; at the same point with another
+            # extra argument.  Each call has to return what a fresh object returns (bit for bit), and the third one the exact Jacobian
+            f0 = multi.vector_fun(rec, x0)
+
+            def f(x, t=0.0):
+                return f0(x - t)
+            d = 0.25 + 0.125 * (ri % 3)
+            J = nd.Jacobian(f, method=method, order=order)
+            xw = np.array(x0, dtype=float)
+            r1 = np.array(J(xw, 0.0), copy=True)
+            xw += d
+            r2 = np.array(J(xw, 0.0), copy=True)
+            r3 = np.array(J(xw, d), copy=True)
+            g1 = np.array(J(np.array(x0, dtype=float), 0.0), copy=True)          # the object again at the first point
+            fresh = [np.asarray(nd.Jacobian(f, method=method, order=order)(np.array(xx, dtype=float), t))
+                     for xx, t in ((x0, 0.0), (np.array(x0) + d, 0.0), (np.array(x0) + d, d), (x0, 0.0))]
+            same = [bool(np.array_equal(a, b, equal_nan=True)) for a, b in zip((r1, r2, r3, g1), fresh)]
+            return ('ok', r3.tolist(), list(r3.shape), same, r1.tolist())
         if mode == 'jac-list':      # x given as a python list; result must be the same
             f = multi.vector_fun(rec, x0)
             val = nd.Jacobian(f, method=method, order=order)(list(x0))
@@ -137,6 +156,8 @@ def run(tier, rep):
                     cases.append((ri, method, order, 'jac'))
             if rec['k'] == 0 and rnd.random() < 0.2:
                 cases.append((ri, rnd.choice(METHODS), 2, 'jac-list'))
+            if rnd.random() < (0.35 if tier == 'quick' else 1.0):
+                cases.append((ri, rnd.choice(METHODS + ['forward', 'backward']), rnd.choice([2, 4]), 'jac-hist'))
             if rec['m'] == 1 and rec['k'] == 0:
                 for method in METHODS:
                     cases.append((ri, method, rnd.choice([2, 4]), 'grad'))
@@ -165,7 +186,11 @@ def run(tier, rep):
         sc = multi.scale_of(rec, x0)
         affine = rec['kind'] == 'affine'
         tol = (1e-9 if affine else env_first(method)) * sc
-        if mode in ('jac', 'jac-list'):
+        if mode == 'jac-hist' and not all(o[3]):
+            which = ['first call', 'call after x was changed in place', 'call with another extra argument', 'call at the first point again'][o[3].index(False)]
+            rep.violation('history:jac', dict(case=name, same_as_fresh=o[3]), '%s: the %s of one Jacobian object differs from what a fresh object returns for the same (f, x, args)' % (name, which))
+            continue
+        if mode in ('jac', 'jac-list', 'jac-hist'):
             want = multi.jac_exact(rec)
             if o[2] != list(want.shape):
                 rep.violation('shape:jac', dict(case=name, got=o[2], want=list(want.shape)), '%s: result shape %s, the property demands %s' % (name, o[2], list(want.shape)))
